@@ -123,7 +123,7 @@ QTypeC     == {"txt", "a", "t255"}
 NameC      == {"labels", "small", "nolabels", "over255", "ptr_suffix", "ptr_self", "ptr_oob", "ptr_chain10",
                "ptr_chain11", "rsv40", "rsv80", "overrun"}
 B32C       == {"valid", "lower", "badchar", "padded", "badlen"}
-LenPrefixC == {"ok", "bigger", "smaller", "zero"}
+LenPrefixC == {"ok", "plus1", "bigger", "smaller", "zero"}   \* plus1: claims exactly one byte more than the message carries
 NoiseC     == {"valid", "empty", "len31", "len32", "len47", "badtag", "wrongkey", "trailing"}
 InnerC     == {"bd", "uni", "nopayload", "garbage", "empty"}
 TrailC     == {"none", "bytes"}
@@ -290,7 +290,8 @@ Trigger(g, e, r) ==
                                       \/ e \in {"station.ingest", "regproc", "api", "dnsreg"} /\ HasPayload(r) /\ r.pbytes = "nil"
     [] g = "dns.ptr_limit"         -> e = "responder" /\ r.name \in {"ptr_self", "ptr_chain11"} /\ r.qd # "zero"
     [] g = "dns.label_bounds"      -> e = "responder" /\ (r.name \in {"overrun", "ptr_oob"} \/ r.optrd = "overrun") /\ r.qd # "zero"
-    [] g = "msgformat.len"         -> e = "msgformat" /\ (r.len \in {"l0", "l1"} \/ r.prefix \in {"bigger", "max"})
+    [] g = "msgformat.len"         -> \/ e = "msgformat" /\ (r.len \in {"l0", "l1"} \/ r.prefix \in {"bigger", "max"})
+                                      \/ e = "responder" /\ DnsEnvelopeOK(r) /\ r.lenprefix \in {"plus1", "bigger"}
     [] g = "rdatatxt.len"          -> e = "rdatatxt" /\ (r.last = "overrun" \/ r.size = "s0")
     [] g = "responder.noise.len"   -> e = "responder" /\ DnsEnvelopeOK(r) /\ r.lenprefix \in {"ok", "smaller"} /\ r.noise \in {"empty", "len31", "len32", "len47"}
     [] g = "dnsreg.payload_nil"    -> e = "dnsreg" /\ r.payload = "absent"
